@@ -1,37 +1,56 @@
 /-
   C02  An excluded or filtered-out host is never contacted; all others survive.
-  PROPERTY THEOREMS ONLY (helper lemmas live in PdshVerif/Opt/ExcludeLemmas.lean and
+  PROPERTY THEOREMS ONLY (helper lemmas: PdshVerif/Opt/Exclude{Lemmas,Filter,Compose,Order,Contact}.lean and
   PdshVerif/Hostlist/Lemmas{Find,FindComplete,DeleteName,Delete,Pop}.lean).
 
-  Model: PdshVerif/Opt/Exclude.lean (opt.c exclusion / filter path over the editable host list of
-  C16).  Spec: PdshVerif/Opt/ExcludeSpec.lean.  `cfg : Cfg` carries the defect switches (probed
-  from the code on every run); theorems hold for all variants unless they name a switch.
+  Model: PdshVerif/Opt/Exclude.lean (opt.c exclusion / filter path over the editable host list of C16) — the
+  definitions `pdshmodel hl xcl` executes.  Spec: PdshVerif/Opt/ExcludeSpec.lean.  `cfg : Cfg` carries the defect
+  switches (probed from the code on every run); theorems hold for all variants unless they name a switch.
 
-  Proved:
-   * whole-name matching, both directions: `hostlist_find` reports only positions that hold exactly
-     the name (zero padding, digit-ending prefixes, wider numbers) and — for names whose trailing
-     digit run is ≤ 2^25 — finds every name the list denotes;
-   * every variant: an exclusion never removes a host with another name (count preserved);
-   * repaired D1: `wcoll_apply_excluded` leaves exactly the hosts no entry names, order and
-     multiplicity kept;  unchanged: witness that a host named twice survives;
-   * the buffer loop of `list_push_hostlist`: repaired terminates within 12 doublings, unchanged
-     never ends from 4095 bytes on (D2);
-   * the specification is order independent.
-  Witnesses (`decide`): D1, F02-2BR, F02-BIGSUFFIX end to end through `cliFinal`.
-   * repaired D19: `hostlist_filter_regex` (iterate + `hostlist_remove`) leaves exactly the hosts
-     the filter keeps, and `wcoll_apply_regex` the hosts that pass every filter (order, multiplicity);
-   * COMPOSITION (`exclusion_correct`): with D1, D17, D19 repaired, for one-bracket target words and
-     small names, the words `wcoll_arg_process` sees lead to exactly
-     targets.filter (not excluded) |>.filter (passes every regex) — assembling, exclusion stack,
-     filter stack and `wcoll_expand` chained, record identities / iterators / bounds tracked through.
-  NOT proved: the same for the UNCHANGED `hostlist_remove` (D19: the iterator revisits hosts; the
-  test is idempotent, covered by the correspondence runs); `^file` words and `-x`/`-w` option
-  splitting are outside the composition theorem (files: C10; splitting: `evWords` is executable).
+  clause of the property text                               theorem
+  --------------------------------------------------------  ---------------------------------------------------------
+  (the oracle of the check is the theorems' right side)     `oracle_is_spec`
+  final list = assembled targets minus every occurrence     `exclusion_correct` (words), `exclusion_correct_options`
+    of every excluded host, filters applied                   (-w / -x arguments: list_split, the dash of -x),
+                                                              `file_contents_to_contacted` (file CONTENTS, includes,
+                                                              WCOLL, two-bracket words: C10's theorem imported)
+  -x list / `-` word / -x ^file / -^file                    `x_option_is_dash_words` (every variant),
+                                                              `exclusion_correct_options`; files: C10
+                                                              `target_list_end_to_end` + `excluded_file_same_reader`
+  /re/ keeps only matches, dash /re/ removes all matches    `filterRegex_hosts`, `applyRegex_hosts`,
+                                                              `filter_keep_drop_complement`, `filter_matches_everything`,
+                                                              `filter_matches_nothing`
+  regardless of the order of targets, exclusions, filters   `model_order_independent`, `grouping_independent` (the MODEL),
+                                                              `spec_order_independent` (the specification)
+  whole names exactly (foo1 / foo10 / foo01 / foo1-ib)      `find_complete` + C16 `find_sound`, `delete_host_exact`,
+                                                              `exclusion_only_named`
+  survivors keep relative order and multiplicity            `exclusion_repaired`, `filterRegex_hosts` (list equalities)
+  never CONTACTED / the others are contacted                `excluded_never_contacted` (C03's fan-out LTS imported)
+  always terminates whatever the size of the exclusions     `pipeline_terminates`, `pushHostlist_terminates`,
+                                                              `exclusion_file_whole`; FALSE from 2^22 - 1 bytes of
+                                                              ranged exclusion FILE on: `exclusion_file_cut`
+                                                              (F02-XFILE-4MIB, open), `exclusion_file_repaired`;
+                                                              unchanged D2: `pushHostlist_unchanged_diverges`
+  Witnesses (`decide`): D1, F02-2BR end to end through `cliFinal`; instances derived THROUGH the theorems:
+  `exclusion_correct_instance`, `exclusion_correct_options_instance`, the examples after each theorem.
+
+  What is assumed of regcomp / regexec: see the note in section "regex filters" (nothing about WHAT matches).
+
+  NOT proved: `hostlist_filter_regex` for the UNCHANGED `hostlist_remove` (D19: the iterator revisits hosts; the
+  test is idempotent; correspondence only — /repo carries the repair); exclusion words whose names have a numeric
+  tail > 2^25 (`SmallName`, F16-BIGSUFFIX at the library level); an exclusion FILE whose ranged text reaches 4 MiB
+  (the model stops with `ub`, the real pdsh is compared with the specification only); that dsh.c refines C03's
+  LTS and that `dsh()` numbers the targets in list order (C03's trace correspondence; C01 `iter_all`); that the
+  text-level reading of the oracle (`Spec.classify`) gives EVERY well-formed word its meaning (`ReadsRight` is a
+  decidable hypothesis of `oracle_is_spec`; the general statement belongs to C01's specification).
 -/
-import PdshVerif.Opt.ExcludeCompose
+import PdshVerif.Opt.ExcludeContact
+import PdshVerif.Opt.ExcludeBridge
+import PdshVerif.Props.C10
 
 namespace PdshVerif.C02
-open PdshVerif.Hostlist PdshVerif.Opt PdshVerif.Opt.Exclude
+open PdshVerif.Hostlist PdshVerif.Opt.Exclude
+open PdshVerif.Opt hiding Str Cfg Env Fixes
 
 /-! ### whole-name matching -/
 /-- FIND is COMPLETE on small names: a name the records denote is found (`SmallName`: the name's
@@ -94,6 +113,53 @@ theorem applyRegex_hosts (cfg : Cfg) (hfix : cfg.fixRemoveDepth = true) (env : E
     (fun _ _ h hw hh hs => narrow_of_le h hw hh hs) (fun _ h => h) env rs e hid hg hf hits hm
   exact ⟨e', h1, h2, h4⟩
 
+/-! What is assumed of `regcomp` / `regexec`: NOTHING about which strings a pattern matches.  The theorems hold for
+    every oracle `m : host → Option Bool` (for every table `env.rematch : pattern → host → Option Bool`): all they
+    use is that the verdict on a host is a function of (pattern, host name) — the same name gets the same verdict
+    wherever it stands in the list and however often it is asked — and that `regcomp`'s refusal is a function of
+    the pattern (`env.badre`).  The check fills the table with libc's answers for the flags of
+    `regex_info_create` (REG_EXTENDED | REG_NOSUB, eflags 0; harness/regex_oracle.c); a pattern that matches the
+    empty string or every name, or none, is just a constant oracle: -/
+
+/-- KEEP and DROP are complements: the filter written slash re slash and the same pattern behind a dash split
+    the list — every occurrence of every host is in exactly one of the two results -/
+theorem filter_keep_drop_complement (cfg : Cfg) (hfix : cfg.fixRemoveDepth = true) (m : Str → Option Bool)
+    (pat : Str) (e : EL) (hid : e.IdsOk) (hg : e.Good) (hf : ∀ q ∈ e.ranges, q.PrintsFull cfg) (hits : e.its = [])
+    (hm : ∀ h ∈ e.hosts, (m h).isSome = true) :
+    ∃ ek ed, filterRegex cfg m false pat e = .ok ek ∧ filterRegex cfg m true pat e = .ok ed ∧
+      ∀ x, ek.hosts.count x + ed.hosts.count x = e.hosts.count x := by
+  obtain ⟨ek, h1, h2, _⟩ := filterRegex_hosts cfg hfix m false pat e hid hg hf hits hm
+  obtain ⟨ed, h3, h4, _⟩ := filterRegex_hosts cfg hfix m true pat e hid hg hf hits hm
+  exact ⟨ek, ed, h1, h3, fun x => by rw [h2, h4]; exact filter_keep_drop_count m x e.hosts hm⟩
+
+/-- a pattern that matches EVERY host of the list (the empty pattern, `.*`, `^`, `x*` …): as a keep filter it
+    removes nobody, as a drop filter it leaves nobody -/
+theorem filter_matches_everything (cfg : Cfg) (hfix : cfg.fixRemoveDepth = true) (m : Str → Option Bool)
+    (pat : Str) (e : EL) (hid : e.IdsOk) (hg : e.Good) (hf : ∀ q ∈ e.ranges, q.PrintsFull cfg) (hits : e.its = [])
+    (hm : ∀ h ∈ e.hosts, m h = some true) :
+    (∃ e', filterRegex cfg m false pat e = .ok e' ∧ e'.hosts = e.hosts) ∧
+    (∃ e', filterRegex cfg m true pat e = .ok e' ∧ e'.hosts = []) := by
+  have hs : ∀ h ∈ e.hosts, (m h).isSome = true := fun h hh => by rw [hm h hh]; rfl
+  obtain ⟨ek, h1, h2, _⟩ := filterRegex_hosts cfg hfix m false pat e hid hg hf hits hs
+  obtain ⟨ed, h3, h4, _⟩ := filterRegex_hosts cfg hfix m true pat e hid hg hf hits hs
+  refine ⟨⟨ek, h1, ?_⟩, ⟨ed, h3, ?_⟩⟩
+  · rw [h2]; exact filter_all_true fun h hh => keepOf_keep (hm h hh)
+  · rw [h4]; exact filter_all_false fun h hh => by rw [keepOf_drop (hm h hh)]; rfl
+
+/-- a pattern that matches NO host of the list (`^$`, `q`): as a keep filter it leaves nobody ("no remote hosts
+    specified"), as a drop filter it removes nobody -/
+theorem filter_matches_nothing (cfg : Cfg) (hfix : cfg.fixRemoveDepth = true) (m : Str → Option Bool)
+    (pat : Str) (e : EL) (hid : e.IdsOk) (hg : e.Good) (hf : ∀ q ∈ e.ranges, q.PrintsFull cfg) (hits : e.its = [])
+    (hm : ∀ h ∈ e.hosts, m h = some false) :
+    (∃ e', filterRegex cfg m false pat e = .ok e' ∧ e'.hosts = []) ∧
+    (∃ e', filterRegex cfg m true pat e = .ok e' ∧ e'.hosts = e.hosts) := by
+  have hs : ∀ h ∈ e.hosts, (m h).isSome = true := fun h hh => by rw [hm h hh]; rfl
+  obtain ⟨ek, h1, h2, _⟩ := filterRegex_hosts cfg hfix m false pat e hid hg hf hits hs
+  obtain ⟨ed, h3, h4, _⟩ := filterRegex_hosts cfg hfix m true pat e hid hg hf hits hs
+  refine ⟨⟨ek, h1, ?_⟩, ⟨ed, h3, ?_⟩⟩
+  · rw [h2]; exact filter_all_false fun h hh => keepOf_keep (hm h hh)
+  · rw [h4]; exact filter_all_true fun h hh => by rw [keepOf_drop (hm h hh)]; rfl
+
 /-! ### composition -/
 /-- EXCLUSION CORRECT.  `ws`: the comma words of the command line by meaning — target words
     (`pre[ranges]suffix` or plain names), exclusion words (`-` + such a word), filters (`/re/`, and the
@@ -116,6 +182,154 @@ theorem exclusion_correct_instance :
     cliWords Cfg.repaired demoEnv (demoWords.map CW.text) = .ok ["foo1".toList, "bar".toList] :=
   demo_correct
 
+
+/-! ### order independence OF THE MODEL, the option level, termination -/
+/-- REGARDLESS OF THE ORDER (the model, not only the specification): `b` is a permutation of the words `a` in
+    which the target words keep their relative order — exclusions and filters may stand before, between or after
+    the targets, in any order.  `wcoll_arg_process` on every word, then `wcoll_apply_excluded`, `wcoll_apply_regex`,
+    `wcoll_expand` give the same hosts for both (`Domain` is asked of ONE of the two: it only depends on which
+    words there are). -/
+theorem model_order_independent (cfg : Cfg) (hD1 : cfg.fixDeleteAll = true) (hD17 : cfg.fixIterSuffix = true)
+    (hD19 : cfg.fixRemoveDepth = true) (env : Env) (a b : List CW) (hd : Domain cfg env a)
+    (hp : a.Perm b) (ht : tgts a = tgts b) :
+    cliWords cfg env (b.map CW.text) = cliWords cfg env (a.map CW.text) :=
+  cliWords_order_independent cfg hD1 hD17 hD19 env a b hd hp ht
+
+/-- non-vacuity: the exclusion first, the filter between the two targets — same hosts as `demoWords` -/
+example : cliWords Cfg.repaired demoEnv
+    ([CW.xcl (.plain "foo2".toList), .tgt (.br "foo".toList [⟨"1".toList, some "3".toList⟩] [] none),
+      .re true "3".toList, .tgt (.plain "bar".toList)].map CW.text) =
+    .ok ["foo1".toList, "bar".toList] := by
+  rw [model_order_independent Cfg.repaired rfl rfl rfl demoEnv demoWords _ demo_domain
+    ((List.Perm.swap _ _ _).trans (.cons _ (.cons _ (.swap _ _ [])))) rfl]
+  exact demo_correct
+
+/-- FROM THE OPTIONS: the command line as `getopt` hands it over — a list of `-w LIST` and `-x LIST` arguments,
+    the words grouped into options in any way (`OptG.ok`, decidable: every piece survives `list_split`: non-empty,
+    no comma outside brackets, brackets balanced) — `list_split`, the dash `wcoll_append_excluded` puts in front
+    of every piece of a `-x` argument, and the rest of `opt_args` lead to the specification's hosts -/
+theorem exclusion_correct_options (cfg : Cfg) (hD1 : cfg.fixDeleteAll = true) (hD17 : cfg.fixIterSuffix = true)
+    (hD19 : cfg.fixRemoveDepth = true) (env : Env) (gs : List OptG) (hok : ∀ g ∈ gs, g.ok = true)
+    (hd : Domain cfg env (gs.flatMap OptG.words)) :
+    cliFinal cfg env (gs.map OptG.ev) = .ok (specWords env (gs.flatMap OptG.words)) :=
+  cliFinal_options cfg hD1 hD17 hD19 env gs hok hd
+
+/-- `pdsh -w foo[1-3] -x foo2 -w bar,WORD` with WORD = dash slash 3 slash: foo1 and bar, through the theorem -/
+def demoOptions : List OptG :=
+  [.w [.tgt (.br "foo".toList [⟨"1".toList, some "3".toList⟩] [] none)], .x [.xcl (.plain "foo2".toList)],
+   .w [.tgt (.plain "bar".toList), .re true "3".toList]]
+
+example : demoOptions.map OptG.ev = [.w "foo[1-3]".toList, .x "foo2".toList, .w "bar,-/3/".toList] := by decide
+
+theorem exclusion_correct_options_instance :
+    cliFinal Cfg.repaired demoEnv (demoOptions.map OptG.ev) = .ok ["foo1".toList, "bar".toList] := by
+  rw [exclusion_correct_options Cfg.repaired rfl rfl rfl demoEnv demoOptions (by decide) demo_domain]
+  decide
+
+/-- EVERY SOURCE OF EXCLUSIONS IS ONE MECHANISM: a `-x LIST` option and a `-w` option holding the same pieces behind
+    dashes are the same words for `wcoll_arg_process` — host words, caret-file words (an exclusion file) and filters
+    alike — so `opt_args` ends with the same list; for EVERY variant of the code, whatever stands before and after -/
+theorem x_option_is_dash_words (cfg : Cfg) (env : Env) (pre post : List Ev) (ps : List Str)
+    (hok : ∀ p ∈ ps, Wcoll.pieceOK p = true) (hok' : ∀ p ∈ ps, Wcoll.pieceOK ('-' :: p) = true)
+    (hd : optText (ps.map ('-' :: ·)) ≠ ['-']) :
+    cliFinal cfg env (pre ++ [.x (optText ps)] ++ post) =
+      cliFinal cfg env (pre ++ [.w (optText (ps.map ('-' :: ·)))] ++ post) :=
+  cliFinal_x_eq_dash_w cfg env pre post ps hok hok' hd
+
+/-- the option `-x foo2,^F,/3/` and the `-w` option with the same three pieces behind dashes (the hypotheses are
+    decidable) -/
+example : optText ["foo2".toList, "^F".toList, "/3/".toList] = "foo2,^F,/3/".toList ∧
+    optText (["foo2".toList, "^F".toList, "/3/".toList].map ('-' :: ·)) = "-foo2,-^F,-/3/".toList ∧
+    (∀ p ∈ ["foo2".toList, "^F".toList, "/3/".toList], Wcoll.pieceOK p = true ∧ Wcoll.pieceOK ('-' :: p) = true) := by
+  decide
+
+/-- ... and neither the grouping of the words into options nor their order matters -/
+theorem grouping_independent (cfg : Cfg) (hD1 : cfg.fixDeleteAll = true) (hD17 : cfg.fixIterSuffix = true)
+    (hD19 : cfg.fixRemoveDepth = true) (env : Env) (g1 g2 : List OptG) (h1 : ∀ g ∈ g1, g.ok = true)
+    (h2 : ∀ g ∈ g2, g.ok = true) (hd : Domain cfg env (g1.flatMap OptG.words))
+    (hp : (g1.flatMap OptG.words).Perm (g2.flatMap OptG.words))
+    (ht : tgts (g1.flatMap OptG.words) = tgts (g2.flatMap OptG.words)) :
+    cliFinal cfg env (g2.map OptG.ev) = cliFinal cfg env (g1.map OptG.ev) :=
+  cliFinal_grouping_independent cfg hD1 hD17 hD19 env g1 g2 h1 h2 hd hp ht
+
+/-- ALWAYS TERMINATES, whatever the size of the exclusion list: inside `Domain` (which bounds neither the number
+    of exclusion words nor the number of names each denotes nor the number of filters) the model of `opt_args`,
+    run with the fuel the driver passes, never reports `diverge` or exhausted fuel -/
+theorem pipeline_terminates (cfg : Cfg) (hD1 : cfg.fixDeleteAll = true) (hD17 : cfg.fixIterSuffix = true)
+    (hD19 : cfg.fixRemoveDepth = true) (env : Env) (ws : List CW) (hd : Domain cfg env ws) :
+    (cliWords cfg env (ws.map CW.text)).ends = true :=
+  cliWords_ends cfg hD1 hD17 hD19 env ws hd
+
+/-- THE ORACLE IS THE THEOREM'S RIGHT-HAND SIDE: the executable specification `ExcludeSpec.final` (what
+    `pdshmodel hl xspec` prints; the real pdsh is compared with it on every generated command line) and the
+    `specWords` of `exclusion_correct` are the same list, for command lines whose words the text-level reading
+    (`ExcludeSpec.names`, i.e. C01's `Spec.classify`) reads as what they mean (`ReadsRight`, decidable per command
+    line; in general it is C01's statement about `classify`) -/
+theorem oracle_is_spec (env : Env) (ws : List CW) (hr : ReadsRight ws)
+    (ho : ∀ p ∈ regs ws, ∀ h ∈ Spec.expand₁ (tgts ws), (env.rematch p.2 h).isSome = true) :
+    ExcludeSpec.final (specEnv env) (ws.map CW.item) = .hosts (specWords env ws) :=
+  final_eq_specWords env ws hr ho
+
+/-- hence model = oracle, by the two theorems, on the demo command line -/
+example : cliWords Cfg.repaired demoEnv (demoWords.map CW.text) = .ok ["foo1".toList, "bar".toList] ∧
+    ExcludeSpec.final (specEnv demoEnv) (demoWords.map CW.item) = .hosts ["foo1".toList, "bar".toList] := by
+  refine ⟨demo_correct, ?_⟩
+  rw [oracle_is_spec demoEnv demoWords ⟨by decide, by decide⟩ demo_domain.oracle]
+  decide
+
+/-! ### up to the hosts contacted (C02 ∘ C03) -/
+/-- NEVER CONTACTED / ALL OTHERS SURVIVE, at the level of `rcmd_connect`.  `hosts`: what `opt_args` leaves in
+    `opt->wcoll` for the words `ws` (C02's model); `dsh()` makes one target per host, in list order, and C03's
+    fan-out LTS (every schedule of dispatcher and workers, either wait construct, any fanout, spurious wake-ups)
+    starts the connects.  In EVERY execution `ls`, finished or not:
+      * every host a connect was started for is a target that no exclusion names and that passes every filter,
+      * no position of the list gets a second connect;
+    and once `dsh()` has returned the hosts contacted are exactly the specification's list, every occurrence
+    once (as a multiset: the ORDER of the connects belongs to the scheduler).
+    Imports C03 `each_op_once`, `none_else`, `exit_after_all`; that dsh.c refines the LTS is C03's correspondence. -/
+theorem excluded_never_contacted (cfg : Cfg) (hD1 : cfg.fixDeleteAll = true) (hD17 : cfg.fixIterSuffix = true)
+    (hD19 : cfg.fixRemoveDepth = true) (env : Env) (ws : List CW) (hd : Domain cfg env ws) (hosts : List Str)
+    (hc : cliWords cfg env (ws.map CW.text) = .ok hosts)
+    (v : Dsh.Fan.Variant) (f : Nat) (ls : List Dsh.Fan.Label) (s : Dsh.Fan.St)
+    (he : Dsh.Fan.Exec (Dsh.Fan.init v f hosts.length) ls s) :
+    (∀ h ∈ contacted hosts ls, h ∈ Spec.expand₁ (tgts ws) ∧ h ∉ Spec.expand₁ (xcls ws) ∧
+        keepAll env (regs ws) h = true) ∧
+    (started ls).Nodup ∧
+    (Dsh.Fan.Final s → (contacted hosts ls).Perm (specWords env ws)) := by
+  have hh : hosts = specWords env ws := by
+    rw [exclusion_correct cfg hD1 hD17 hD19 env ws hd] at hc
+    exact (Res.ok.inj hc).symm
+  refine ⟨fun h hm => ?_, (started_nodup_lt he).1, fun hf => ?_⟩
+  · have := contacted_mem hosts ls h hm
+    rw [hh] at this
+    unfold specWords at this
+    obtain ⟨h1, h2⟩ := List.mem_filter.mp this
+    obtain ⟨h3, h4⟩ := List.mem_filter.mp h1
+    refine ⟨h3, ?_, h2⟩
+    intro hx
+    have h5 : ¬ h ∈ Spec.expand₁ (xcls ws) := by simpa using h4
+    exact h5 hx
+  · have := contacted_perm hosts he hf
+    rwa [hh] at this ⊢
+
+/-- non-vacuity: the demo command line (hosts foo1, bar) and a complete run of the fan-out with fanout 1 (one
+    spurious wake-up): both hosts contacted, foo1 first -/
+example : ∃ ls s, Dsh.Fan.Exec (Dsh.Fan.init .whileWait 1 ["foo1".toList, "bar".toList].length) ls s ∧
+    Dsh.Fan.Final s ∧ contacted ["foo1".toList, "bar".toList] ls = ["foo1".toList, "bar".toList] := by
+  let ls : List Dsh.Fan.Label :=
+    [.d .lock, .d (.create 0), .d .unlock, .d .lock, .d .wait,
+     .w 0 .connectBegin, .w 0 .connectEnd, .w 0 .destroyBegin, .w 0 .destroyEnd, .w 0 .lock, .w 0 .signal,
+     .d (.wake false), .w 0 .unlock, .d .relock, .d (.create 1), .d .unlock, .d .lock, .d .wait,
+     .d (.wake true), .d .relock, .d .wait,
+     .w 1 .connectBegin, .w 1 .connectEnd, .w 1 .destroyBegin, .w 1 .destroyEnd, .w 1 .lock, .w 1 .signal,
+     .w 1 .unlock, .d (.wake false), .d .relock, .d .unlock, .d .ret]
+  have hr : (Dsh.Fan.run (Dsh.Fan.init .whileWait 1 2) ls).isSome = true := by decide
+  obtain ⟨s, hs⟩ := Option.isSome_iff_exists.mp hr
+  refine ⟨ls, s, Dsh.Fan.exec_of_run hs, ?_, by decide⟩
+  have hd : (Dsh.Fan.run (Dsh.Fan.init .whileWait 1 2) ls).map (·.dpc) = some .returned := by decide
+  rw [hs] at hd
+  exact Option.some.inj hd
+
 /-! ### the buffer loop of `list_push_hostlist` (D2) -/
 /-- TERMINATION (repaired D2): the loop stops within 12 doublings whatever the length of the
     exclusion text -/
@@ -134,6 +348,24 @@ theorem pushHostlist_unchanged_small (len : Nat) (h : len < 4095) (fuel : Nat) :
   unfold pushLoop
   have : ¬ len ≥ 4096 - 1 := by omega
   simp [this]
+
+/-- EXCLUSION FILE, D2 repaired: as long as the ranged form of the file is shorter than 2^22 - 1 bytes the entry
+    pushed on `exclude_list` is the whole text ... -/
+theorem exclusion_file_whole (cfg : Cfg) (hfix : cfg.fixPushLoop = true) (hl : EL)
+    (h : (rangedText hl.ranges).length < 2 ^ 22 - 1) : pushHostlist cfg hl = .ok (rangedText hl.ranges) :=
+  pushHostlist_whole cfg hfix hl h
+
+/-- ... F02-XFILE-4MIB: from 2^22 - 1 bytes on the ceiling `0x7fffff` ends the loop after the attempt with a
+    4 MiB block, whose CUT text is pushed: the hosts behind the cut are still contacted (observed on the real pdsh:
+    a file of 10^6 names, the 500 000th and the last are contacted).  The statement of the property
+    ("whatever the size of the exclusion list") is FALSE of the code from that size on; the model stops there. -/
+theorem exclusion_file_cut (cfg : Cfg) (hfix : cfg.fixPushLoop = true) (hl : EL)
+    (h : (rangedText hl.ranges).length ≥ 2 ^ 22 - 1) :
+    pushHostlist cfg hl = .error (.ub "exclusion text cut at 4 MiB") :=
+  pushHostlist_cut cfg hfix hl h
+
+/-- the loop without ceiling (findings/C02-XFILE4M.patch) hands on the whole text whatever its length -/
+theorem exclusion_file_repaired (hl : EL) : pushHostlistR hl = .ok (rangedText hl.ranges) := rfl
 
 /-! ### the specification -/
 /-- ORDER INDEPENDENCE: exclusions and filters may stand anywhere among the targets (and in any
@@ -175,5 +407,65 @@ theorem two_bracket_witness :
     shownRes (cliFinal Cfg.repaired noEnv [.w "foo[1-2]-[0-1]".toList, .x "foo[1-2]-0".toList]) =
       ["foo1-1", "foo2-1"] := by
   decide
+
+/-! ### from the file CONTENTS to the hosts contacted (C10 ∘ C02 ∘ C01 ∘ C03) -/
+section EndToEnd
+open PdshVerif.Opt.Targets
+open PdshVerif.Opt.Wcoll (LineMode FS)
+
+/-- what the whole command line means: every target word expanded (C01's `expand₂`, two bracket levels), the words
+    of `^files` standing where the file stands (includes inlined), WCOLL's file when no option names a target —
+    minus every name an exclusion word or exclusion file denotes, filtered by every regex -/
+def meant (mode : LineMode) (fs : FS) (rematch : List Char → List Char → Option Bool) (badre : List Char → Bool)
+    (segs : List Seg) (wenv : Option (List Char × List Spec.Word)) : List (List Char) :=
+  ((Spec.expand₂ (tgtWords segs wenv)).filter fun h => !(segs.flatMap Seg.xnames).contains h).filter
+    (keepAll (envOf mode fs rematch badre segs wenv) (segs.flatMap Seg.reg))
+
+/-- THE WHOLE CHAIN.  Starting from the CONTENTS of the files (`fs`; comments, blank lines and `#include`s read by
+    C10's model of wcoll.c), the TEXT of the option words (`segs.map Seg.text`: target words with one or two
+    bracket pairs, caret-file words, exclusion words and files, filters) and the WCOLL variable, with D1, D17, D19
+    and F02-2BR repaired (as /repo is) and inside C10's decidable `targetDomain`:
+      * `opt_args` ends with exactly `meant` in `opt->wcoll` (C10 `target_list_end_to_end`, which chains C10's
+        reader, this file's `exclusion_correct` machinery and C01's `wcoll_expand₂`), and
+      * in every execution of the fan-out over that list (C03: any schedule, fanout, wait construct) the hosts a
+        connect is started for are targets no exclusion names and every filter passes, no list position twice —
+        and exactly the list once `dsh()` has returned. -/
+theorem file_contents_to_contacted (cfg : Cfg) (hD1 : cfg.fixDeleteAll = true) (hD17 : cfg.fixIterSuffix = true)
+    (hD19 : cfg.fixRemoveDepth = true) (h2Br : cfg.fix2Br = true) (mode : LineMode) (fs : FS)
+    (rematch : List Char → List Char → Option Bool) (badre : List Char → Bool) (segs : List Seg)
+    (wenv : Option (List Char × List Spec.Word))
+    (hdom : targetDomain cfg mode fs rematch badre segs wenv = true)
+    (v : Dsh.Fan.Variant) (f : Nat) (ls : List Dsh.Fan.Label) (s : Dsh.Fan.St)
+    (he : Dsh.Fan.Exec (Dsh.Fan.init v f (meant mode fs rematch badre segs wenv).length) ls s) :
+    targetList cfg (envOf mode fs rematch badre segs wenv) (wenv.map (·.1)) (segs.map Seg.text) =
+      .ok (meant mode fs rematch badre segs wenv) ∧
+    (∀ h ∈ contacted (meant mode fs rematch badre segs wenv) ls,
+      h ∈ Spec.expand₂ (tgtWords segs wenv) ∧ h ∉ segs.flatMap Seg.xnames ∧
+      keepAll (envOf mode fs rematch badre segs wenv) (segs.flatMap Seg.reg) h = true) ∧
+    (started ls).Nodup ∧
+    (Dsh.Fan.Final s → (contacted (meant mode fs rematch badre segs wenv) ls).Perm
+      (meant mode fs rematch badre segs wenv)) := by
+  refine ⟨PdshVerif.Props.C10.target_list_end_to_end cfg hD1 hD17 hD19 h2Br mode fs rematch badre segs wenv hdom,
+    fun h hm => ?_, (started_nodup_lt he).1, fun hf => contacted_perm _ he hf⟩
+  have := contacted_mem _ ls h hm
+  unfold meant at this
+  obtain ⟨h1, h2⟩ := List.mem_filter.mp this
+  obtain ⟨h3, h4⟩ := List.mem_filter.mp h1
+  refine ⟨h3, ?_, h2⟩
+  intro hx
+  have h5 : ¬ h ∈ segs.flatMap Seg.xnames := by simpa using h4
+  exact h5 hx
+
+/-- non-vacuity: C10's site (a target file with an include, a two-bracket word, an exclusion file with the same
+    include, a drop filter) is in the domain and means five hosts — the hypotheses can be met, and the list is
+    obtained THROUGH the theorem -/
+example : targetDomain Cfg.repaired .whole PdshVerif.Props.C10.siteFS PdshVerif.Props.C10.siteMatch (fun _ => false)
+      PdshVerif.Props.C10.siteSegs none = true ∧
+    meant .whole PdshVerif.Props.C10.siteFS PdshVerif.Props.C10.siteMatch (fun _ => false)
+      PdshVerif.Props.C10.siteSegs none =
+    ["n1".toList, "n2".toList, "r1n1".toList, "r2n1".toList, "r2n2".toList] := by
+  constructor <;> decide
+
+end EndToEnd
 
 end PdshVerif.C02
